@@ -523,6 +523,9 @@ struct Run<'a> {
     r: StdRng,
     full_sweeps: bool,
     hist_id: u64,
+    /// how the leader's clock stamps the publishes of this history: 0 = one millisecond apart, 1 = bursts of four in one
+    /// millisecond, 2 = all in the same millisecond, 3 = a clock that jumps back now and then (leader change)
+    clock: u64,
 }
 
 async fn new_config_actor(ctx: &Ctx) -> Addr<ConfigActor> {
@@ -547,6 +550,24 @@ impl<'a> Run<'a> {
         }
     }
 
+    /// the history order is the order of the publishes, whatever their time stamps are
+    fn op_time(&self) -> i64 {
+        let h = self.hist_id as i64;
+        1_700_000_000_000
+            + match self.clock {
+                0 => h,
+                1 => h / 4,
+                2 => 0,
+                _ => {
+                    if (h / 5) % 2 == 1 {
+                        h - 40
+                    } else {
+                        h
+                    }
+                }
+            }
+    }
+
     async fn send_op(&mut self, op: &Op) -> anyhow::Result<()> {
         match op {
             Op::Add { k, content, ctype, desc, long_key } => {
@@ -561,7 +582,7 @@ impl<'a> Run<'a> {
                     desc: desc.clone().map(Arc::new),
                     history_id: self.hist_id,
                     history_table_id: if self.hist_id % 3 == 0 { Some(self.hist_id + 100) } else { None },
-                    op_time: 1_700_000_000_000 + self.hist_id as i64,
+                    op_time: self.op_time(),
                     op_user: Some(Arc::new("verif".to_string())),
                 };
                 self.cfg.send(cmd).await?.map(|_| ())
@@ -576,7 +597,7 @@ impl<'a> Run<'a> {
                 let mut items = vec![];
                 for h in hist {
                     self.hist_id += 1;
-                    items.push(ConfigHistoryItemDO { id: Some(self.hist_id), content: Some(h.to_string()), last_time: Some(1_700_000_000_000 + self.hist_id as i64), op_user: Some("importer".into()) });
+                    items.push(ConfigHistoryItemDO { id: Some(self.hist_id), content: Some(h.to_string()), last_time: Some(self.op_time()), op_user: Some("importer".into()) });
                 }
                 let vdo = ConfigValueDO { content: Some(content.to_string()), histories: items, config_type: ctype.clone(), desc: desc.clone() };
                 let key = ConfigKey::new(d, g, t);
@@ -895,7 +916,10 @@ impl<'a> Run<'a> {
 /// run one history on a fresh ConfigActor; the first violation ends it
 pub async fn exec(ctx: &Ctx, ops: &[Op], seed: u64, mut rep: Option<&mut Report>, full_sweeps: bool, diag_out: &mut Vec<(String, Value)>) -> anyhow::Result<Option<Viol>> {
     let cfg = new_config_actor(ctx).await;
-    let mut run = Run { cfg, model: Model::default(), rep: rep.as_deref_mut(), diag: vec![], r: rng(seed ^ 0x5eed), full_sweeps, hist_id: 0 };
+    let mut run = Run { cfg, model: Model::default(), rep: rep.as_deref_mut(), diag: vec![], r: rng(seed ^ 0x5eed), full_sweeps, hist_id: 0, clock: seed % 4 };
+    if let Some(r) = run.rep.as_mut() {
+        r.shape(format!("publish-clock/{}", ["1ms-apart", "bursts-in-one-ms", "all-in-one-ms", "jumps-back"][(seed % 4) as usize]));
+    }
     let mut result = None;
     for (i, op) in ops.iter().enumerate() {
         let prev = op.key().and_then(|k| run.model.last_class.get(&k).cloned()).unwrap_or("none");
